@@ -421,7 +421,7 @@ End Crypto.
 
 (* the code's lower-casing switch against RFC 4034 6.2 (3) as corrected by RFC 6840 5.1 *)
 Lemma lowered_vs_rfc ty :
-  mem ty rfc4034_6_2_types = lowered ty || (ty =? 30) || (ty =? 38) || (ty =? 46).
+  mem ty rfc4034_6_2_types = lowered ty || (ty =? 38) || (ty =? 46).
 Proof.
   unfold mem, rfc4034_6_2_types, lowered, mem. rewrite existsb_app. cbn [existsb].
   now rewrite orb_false_r, !orb_assoc.
@@ -442,7 +442,7 @@ Example signed_octets_ex :
   signed_octets ex_sig [ex_rr 5 [[97]]; ex_rr 10 [[77; 120]]] /\
   is_ok (signed_octets ex_sig [ex_rr 5 [[97]]; ex_rr 10 [[77; 120]]]) = true.
 Proof. vm_compute. split; reflexivity. Qed.
-Example lowered_ex : lowered 15 = true /\ lowered 30 = false /\ lowered 16 = false.
+Example lowered_ex : lowered 15 = true /\ lowered 30 = true /\ lowered 47 = false /\ lowered 16 = false.
 Proof. repeat split. Qed.
 Example field_ci_ex : Forall2 field_ci [RdBytes [0; 10]; RdName [[77; 120]]] [RdBytes [0; 10]; RdName [[109; 88]]].
 Proof. repeat constructor. Qed.
